@@ -89,6 +89,17 @@ def main():
                     meta[tid] = (r, k)
                     jobs.append({'tid': tid, 'deck': dn, 'opts': []})
             if k in (0, 1) or thorough:
+                # the positive reference (the union of the outer half-spaces of the facets) inside an intersection that
+                # is itself an operand of a union: ( +b -8 ) : -9
+                tid += 1
+                du = adeck.normalise({'surfs': [dict(r['card'], n=1), {'n': 8, 'k': 'so', 'p': [30]}, {'n': 9, 'k': 's', 'p': [6, 6, 6, 2]}],
+                                      'cells': [{'n': 1, 'geom': [':', ['*', ['S', 1, k], ['S', -8, 0]], ['S', -9, 0]]},
+                                                {'n': 2, 'geom': ['C', 1]}]})
+                du['pts'] = d['pts']
+                nd[tid] = du
+                meta[tid] = (r, k)
+                jobs.append({'tid': tid, 'deck': du, 'opts': []})
+            if k in (0, 1) or thorough:
                 # the body (or the facet) in a universe cell that carries a TRCL, the universe placed by a FILL with
                 # another transformation: the surface goes through two successive transformations
                 tid += 1
